@@ -25,6 +25,10 @@ pub enum Op {
     Prepare { s: usize, q: String, size: usize },
     /// the same search `n` times in a row (wrap-around / idle-timeout style state needs many calls)
     SearchBurst { s: usize, q: String, n: usize },
+    /// store `s` searches `q` and its caller thread is parked at the `at`-th scheduling point inside
+    /// that search; meanwhile store `s2` (on another caller thread) runs a whole search `q2`; then
+    /// the first search is resumed. (Shipping build, same thread or same store: one after the other.)
+    PSearch { s: usize, s2: usize, q: String, q2: String, at: usize },
     // ---- perturbations of volatile state ---------------------------------------------------
     /// move the store to another long-lived sim-thread (it meets different thread-local scratch)
     Migrate { s: usize, t: usize },
@@ -74,6 +78,7 @@ impl Op {
             Op::Search { .. } => "search",
             Op::Prepare { .. } => "prepare",
             Op::SearchBurst { .. } => "search_burst",
+            Op::PSearch { .. } => "p_search",
             Op::Burst { .. } => "burst",
             Op::Migrate { .. } => "migrate",
             Op::FreshThread { .. } => "fresh_thread",
@@ -124,6 +129,7 @@ impl Op {
             Op::WMatch { t, r, q, fin } => json!({"op":"wmatch","t":t,"r":r,"q":q,"fin":fin}),
             Op::JCheck { t, r, q, fin } => json!({"op":"jcheck","t":t,"r":r,"q":q,"fin":fin}),
             Op::JBurst { t, r, q, fin, n } => json!({"op":"jburst","t":t,"r":r,"q":q,"fin":fin,"n":n}),
+            Op::PSearch { s, s2, q, q2, at } => json!({"op":"p_search","s":s,"s2":s2,"q":q,"q2":q2,"at":at}),
             Op::Preempt { t, t2, jac, r, q, fin, r2, q2, fin2, at } => json!({"op":"preempt","t":t,"t2":t2,"jac":jac,"r":r,"q":q,"fin":fin,"r2":r2,"q2":q2,"fin2":fin2,"at":at}),
         }
     }
@@ -160,6 +166,7 @@ impl Op {
             "jacc" => Op::Jacc { t: gu(o, "t")?, a: gs(o, "a")?, b: gs(o, "b")? },
             "jburst" => Op::JBurst { t: gu(o, "t")?, r: gs(o, "r")?, q: gs(o, "q")?, fin: o.get("fin").and_then(|x| x.as_bool()).unwrap_or(true), n: gu(o, "n")? },
             "jcheck" => Op::JCheck { t: gu(o, "t")?, r: gs(o, "r")?, q: gs(o, "q")?, fin: o.get("fin").and_then(|x| x.as_bool()).unwrap_or(true) },
+            "p_search" => Op::PSearch { s: gu(o, "s")?, s2: gu(o, "s2")?, q: gs(o, "q")?, q2: gs(o, "q2")?, at: gu(o, "at")? },
             "preempt" => Op::Preempt {
                 t: gu(o, "t")?, t2: gu(o, "t2")?, jac: o.get("jac").and_then(|x| x.as_bool()).unwrap_or(false),
                 r: gs(o, "r")?, q: gs(o, "q")?, fin: o.get("fin").and_then(|x| x.as_bool()).unwrap_or(true),
